@@ -8,7 +8,6 @@ func init() {
 			{Name: "cache-history", Pkg: "planner", Files: []string{"planner/c14.go"}, Entry: "VerifCacheHistory", Mode: "seq",
 				Quick: map[string]int{"hmax": 2}, Thorough: map[string]int{"hmax": 3},
 				Reach:     []string{"history of several requests", "unplannable operation"},
-				Known:     []string{"C14-operation-type-not-in-key", "C14-operation-name-not-in-key"},
 				Functions: []string{"planner.(*CachedPlanner).Plan", "planner.(*CachedPlanner).hash", "planner.(*CachedPlanner).clean", "planner.NewCachedPlanner", "planner.SequentialPlanner.Plan", "format.(*BufferedFormatter).FormatSelectionSet"}},
 			{Name: "cache-concurrent", Pkg: "planner", Files: []string{"planner/c14.go"}, Entry: "VerifCacheConcurrent", Mode: "all", Race: true, Native: true,
 				Reach:     []string{"concurrent plans"},
